@@ -368,6 +368,48 @@ Definition sdlnk_sdg (st : store) (members : list (Z * Z)) : list Z :=
                        end
                      else []) members.
 
+(* --------------------------------------------------- record dimensions and dimension scales (older records) *)
+(** cdf.c hdf_write_var: the extents written into the SDD.  The size of the record dimension is "faked": for an HDF
+    file the variable's own record count, for a netCDF file the file-wide one. *)
+Definition ndg_dims (hdf_file : bool) (shape : list Z) (var_numrecs handle_numrecs : Z) : list Z :=
+  map (fun d => if d =? NC_UNLIMITED then (if hdf_file then var_numrecs else handle_numrecs) else d) shape.
+
+(** the extents of a variable as its own interface reports them *)
+Definition effective_dims (shape : list Z) (var_numrecs : Z) : list Z :=
+  map (fun d => if d =? NC_UNLIMITED then var_numrecs else d) shape.
+
+(** dfsd.c DFSDIputndg: the scales record (DFTAG_SDS) = one flag byte per dimension, then the scales of those
+    dimensions that have one, in order *)
+Definition sds_flags (scales : list (option (list Z))) : list Z :=
+  map (fun s => match s with Some _ => 1 | None => 0 end) scales.
+Fixpoint present (scales : list (option (list Z))) : list (list Z) :=
+  match scales with [] => [] | Some b :: r => b :: present r | None :: r => present r end.
+Definition sds_encode (scales : list (option (list Z))) : list Z := sds_flags scales ++ concat (present scales).
+
+(** hdfsds.c hdf_read_ndgs: the offset of each dimension's scale in that record.  The walk starts behind the flag
+    bytes and advances only over scales that are present.  sizes = dimsizes[dim] * DFKNTsize(scaletypes[dim]) *)
+Fixpoint scale_offsets (sizes flags : list Z) (off : Z) : list (option Z) :=
+  match sizes, flags with
+  | n :: ns, f :: fs => if f =? 0 then None :: scale_offsets ns fs off else Some off :: scale_offsets ns fs (off + n)
+  | _, _ => []
+  end.
+Definition slice (rec : list Z) (off n : Z) : list Z := firstn (Z.to_nat n) (skipn (Z.to_nat off) rec).
+Definition sd_read_scales (sizes : list Z) (rec : list Z) : list (option (list Z)) :=
+  let rank := length sizes in
+  map (fun on => match fst on with Some off => Some (slice rec off (snd on)) | None => None end)
+      (combine (scale_offsets sizes (firstn rank rec) (Z.of_nat rank)) sizes).
+
+(** dfsd.c DFSDIgetndg, case DFTAG_SDS: the flags, then the present scales read one after the other *)
+Fixpoint seq_scales (sizes flags : list Z) (rest : list Z) : list (option (list Z)) :=
+  match sizes, flags with
+  | n :: ns, f :: fs =>
+      if f =? 0 then None :: seq_scales ns fs rest
+      else Some (firstn (Z.to_nat n) rest) :: seq_scales ns fs (skipn (Z.to_nat n) rest)
+  | _, _ => []
+  end.
+Definition dfsd_read_scales (sizes : list Z) (rec : list Z) : list (option (list Z)) :=
+  let rank := length sizes in seq_scales sizes (firstn rank rec) (skipn rank rec).
+
 (** how every view names a type written with flavour bits (native is recorded as the host's class) *)
 Definition shown_nt (nt : Z) : Z :=
   let b := Z.land nt 255 in
@@ -485,14 +527,16 @@ Definition lut_entries (pal : list Z) : list (list Z) := map (lut_entry pal) (se
 
 (* ------------------------------------------------------------- old-style files made by the record writers *)
 (** a pre-NDG file: SDG + SDD + NT + SD per dataset (float32 only, as DFSDIgetndg demands for SDGs), or the NDG form *)
-Definition old_sds_file (group_tag : Z) (ds : list (list Z * Z * list Z)) : store :=
+Definition old_sds_file (group_tag : Z) (ds : list (list Z * Z * list Z * list (option (list Z)))) : store :=
   flat_map (fun kd => match kd with
-     (k, (dims, nt, filebytes)) =>
+     (k, (dims, nt, filebytes, scales)) =>
        let r := 2 + k in
+       let has := existsb (fun s => match s with Some _ => true | None => false end) scales in
        [(DFTAG_SD, r, filebytes);
         (DFTAG_NT, r, nt_encode nt);
-        (DFTAG_SDD, r, sdd_encode DFSDIputndg_SDD (mkSdd (zlen dims) dims (repeat (DFTAG_NT, r) (S (length dims)))));
-        (group_tag, r, di_encode [(DFTAG_SD, r); (DFTAG_SDD, r)])]
+        (DFTAG_SDD, r, sdd_encode DFSDIputndg_SDD (mkSdd (zlen dims) dims (repeat (DFTAG_NT, r) (S (length dims)))))] ++
+       (if has then [(DFTAG_SDS, r, sds_encode scales)] else []) ++
+       [(group_tag, r, di_encode ([(DFTAG_SD, r); (DFTAG_SDD, r)] ++ (if has then [(DFTAG_SDS, r)] else [])))]
      end)
    (combine (map Z.of_nat (seq 0 (length ds))) ds).
 
